@@ -36,7 +36,8 @@ NOTES = ("Every claimed check = (1) proof gate: full coqc build of coq/props/<id
          "Assumptions allowlist, forbidden-token scan; (2) correspondence of the executable model with /repo's "
          "current working tree; (3) direct monitors that search for a concrete failing input.  See DESIGN.md.")
 
-GEOM_NOTE = ("Trusted: Coq kernel; extraction + float64 shim; harness/driver transport.  coq/model/Geom.v is hand-written "
+GEOM_NOTE = ("Trusted: Coq kernel; extraction + float64 shim; harness/driver transport.  coq/model/Geom.v is hand-written, including the "
+             "shape constructors (from_radial/polygon, from_trimer, circle) and the enclosing radius, "
              "(nalgebra's 3x3 product, Transform*Point with its normaliser branch, serde layout are MODELLED) and tied to the code "
              "on every run: its binary64 instance is compared with the implementation's placements, images, areas and scores "
              "(bit-exact up to signed zeros, else within 1e-12) on states injected through the public Deserialize.  Theorems are "
@@ -140,7 +141,10 @@ CLAIMS = {
              "the code computes): two placed copies share no interior point unless one has all its vertices strictly inside the "
              "other - the checked pairs by the completeness theorem of C12, the far pairs because a closed convex polygon lies "
              "within the circle through its farthest vertex (C01_inside_within_radius); rigid placements keep convexity "
-             "(C01_placed_convex).  That congruent copies cannot nest is not proved.  The monitor "
+             "(C01_placed_convex).  The built-in regular polygons are closed and convex for every n >= 3 (C01_polygon_closed, "
+             "C01_polygon_convex: trigonometric proof about the model's constructor, which is compared with LineShape::polygon's "
+             "items on every case), so for them no premise about the shape is left (C01_scored_regular_polygon_packing_no_overlap).  "
+             "That congruent copies cannot nest is not proved.  The monitor "
              "searches all generated states (flat cells, copies near opposite faces, aligned/clamped states, optimiser outputs) "
              "with an independent separating-axis lattice oracle over one more shell than needed.",
         note=GEOM_NOTE),
